@@ -118,6 +118,24 @@ func runHotRestartCase(c *checkCtx, cs hrCase, can *canary) (res hrResult) {
 	}
 	defer func() { sm.Close(); fenceN(2) }()
 
+	// Known finding F2: a stream operation that overlaps its session's teardown is process-fatal (also for the echo handlers
+	// of the in-process server). Sessions are therefore only closed while no round trip is in flight: traffic goroutines hold
+	// the read side per round trip, closers the write side until the teardown has finished.
+	var world sync.RWMutex
+	closeQuiesced := func(closeFn func(), sessions []*Session) {
+		world.Lock()
+		defer world.Unlock()
+		closeFn()
+		for _, s := range sessions {
+			if s != nil {
+				waitUntil(10*time.Second, func() bool { fenceOnce(5 * time.Second); return s.IsClosed() })
+				waitTeardown(s, 10*time.Second)
+			}
+		}
+	}
+	// In the two failure scenarios the library itself closes sessions from its time-out paths (reserve pools of a failed
+	// restart); traffic is paused while those paths run, for the same reason.
+	var paused uint32
 	var clock int64
 	var trips []hrTrip
 	var tripMu sync.Mutex
@@ -134,9 +152,15 @@ func runHotRestartCase(c *checkCtx, cs hrCase, can *canary) (res hrResult) {
 					return
 				default:
 				}
+				if atomic.LoadUint32(&paused) == 1 {
+					time.Sleep(200 * time.Microsecond)
+					continue
+				}
+				world.RLock()
 				t0 := atomic.AddInt64(&clock, 1)
 				tag, err := hrRoundTrip(sm, atomic.AddUint64(&nextID, 1))
 				t1 := atomic.AddInt64(&clock, 1)
+				world.RUnlock()
 				tr := hrTrip{start: t0, end: t1, ok: err == nil, tag: tag}
 				if err != nil {
 					tr.err = err.Error()
@@ -178,6 +202,11 @@ func runHotRestartCase(c *checkCtx, cs hrCase, can *canary) (res hrResult) {
 		res.inconcl = fmt.Sprintf("old listener has %d sessions, expected %d", len(oldSessions), cs.Sessions)
 		return
 	}
+	if cs.Scenario == "new-not-accepting" || cs.Scenario == "client-session-lost" {
+		atomic.StoreUint32(&paused, 1)
+		world.Lock() // wait for round trips in flight
+		world.Unlock()
+	}
 	tRestart := atomic.AddInt64(&clock, 1)
 	can.reset()
 	t0 := time.Now()
@@ -208,7 +237,7 @@ func runHotRestartCase(c *checkCtx, cs hrCase, can *canary) (res hrResult) {
 		}
 		sm.RUnlock()
 		if victim != nil {
-			victim.Close()
+			closeQuiesced(func() { victim.Close() }, []*Session{victim})
 		}
 	case "back-to-back":
 		if err := old.ln.HotRestart(epoch + 1); err != ErrHotRestartInProgress {
@@ -239,6 +268,9 @@ func runHotRestartCase(c *checkCtx, cs hrCase, can *canary) (res hrResult) {
 		stopTraffic()
 		return
 	}
+	time.Sleep(5 * time.Millisecond)
+	fenceN(2)
+	atomic.StoreUint32(&paused, 0)
 	tDone := atomic.AddInt64(&clock, 1)
 	// what the hand-over must have achieved
 	sm.RLock()
@@ -256,6 +288,20 @@ func runHotRestartCase(c *checkCtx, cs hrCase, can *canary) (res hrResult) {
 	res.swapped = allNew
 	switch cs.Scenario {
 	case "complete", "foreign-epochs", "back-to-back":
+		if cs.Scenario == "foreign-epochs" && !allNew {
+			// The foreign restart event travels right behind the real one, but whether it is *handled* while the real restart is
+			// still in progress depends on how long the client's handshake with the new server takes (the manager's checker
+			// ends the restart at its next 100 ms tick). Handled after the end it is, legitimately, the start of a new restart.
+			// That case is recognisable: the listener saw the announced restart complete properly.
+			old.ln.mu.Lock()
+			completed := old.ln.state == hotRestartDoneState && old.ln.hotRestartAckCount == 0
+			old.ln.mu.Unlock()
+			if completed {
+				res.inconcl = fmt.Sprintf("the injected foreign-epoch event was handled after the announced restart had completed (epochs %v): a legitimate new restart, scenario not judged", epochs)
+				stopTraffic()
+				return
+			}
+		}
 		if !allNew {
 			violate("after a completed hot restart the pools' sessions have epochs %v, announced epoch %d", epochs, epoch)
 		}
@@ -304,7 +350,21 @@ func runHotRestartCase(c *checkCtx, cs hrCase, can *canary) (res hrResult) {
 	}
 	held.Close()
 	tOldClose := atomic.AddInt64(&clock, 1)
-	old.ln.Close()
+	{
+		// the old server lets go: its sessions and the client's replaced sessions go down together
+		doomed := append([]*Session{}, old.sessionList()...)
+		sm.RLock()
+		for _, p := range sm.reservePools {
+			doomed = append(doomed, p.Session())
+		}
+		for _, p := range sm.pools {
+			if p.Session().epochID != epoch {
+				doomed = append(doomed, p.Session())
+			}
+		}
+		sm.RUnlock()
+		closeQuiesced(func() { old.ln.Close() }, doomed)
+	}
 	if cs.Scenario == "back-to-back" && len(res.viol) == 0 {
 		// a second restart (to a third listener) after the first one is done
 		third, err := startPoolServerAt(path, 3, true)
